@@ -266,6 +266,95 @@ class CFG:
             return True
         return b not in self.reachable(self.entry, avoid=set(through))
 
+    def loop_body(self, head: int) -> Set[int]:
+        """Nodes of one iteration: reachable from the loop head's body edge without re-entering the head."""
+        first = [b for b, lab in self.succ[head] if lab == "true"]
+        return self.reachable(first, avoid={head}, labels_avoid={"exc"}, include_src=True)
+
+    def loop_exit_succ(self, head: int) -> List[int]:
+        return [b for b, lab in self.succ[head] if lab == "false"]
+
+    # ---------------------------------------------------------------- flag-sensitive exploration
+    def constant_flags(self) -> Set[str]:
+        """Local names whose every assignment in the function is a literal constant (boolean/None/int flags)."""
+        vals: Dict[str, List[ast.AST]] = {}
+        for n in ast.walk(self.func):
+            if isinstance(n, ast.Assign):
+                for t in n.targets:
+                    for x in ast.walk(t):
+                        if isinstance(x, ast.Name):
+                            vals.setdefault(x.id, []).append(n.value if isinstance(t, ast.Name) else None)
+            elif isinstance(n, (ast.AugAssign, ast.For, ast.comprehension, ast.NamedExpr, ast.With)):
+                tgt = getattr(n, "target", None)
+                if tgt is not None:
+                    for x in ast.walk(tgt):
+                        if isinstance(x, ast.Name):
+                            vals.setdefault(x.id, []).append(None)
+        return {k for k, v in vals.items() if v and all(isinstance(x, ast.Constant) for x in v)}
+
+    @staticmethod
+    def _eval_flag_test(test, flags: Dict[str, object]):
+        """True/False if decidable from known constant flags, else None."""
+        if isinstance(test, ast.Name) and test.id in flags:
+            return bool(flags[test.id])
+        if isinstance(test, ast.UnaryOp) and isinstance(test.op, ast.Not):
+            v = CFG._eval_flag_test(test.operand, flags)
+            return None if v is None else (not v)
+        if isinstance(test, ast.Compare) and len(test.ops) == 1 and isinstance(test.left, ast.Name) and test.left.id in flags \
+                and isinstance(test.comparators[0], ast.Constant):
+            a, b = flags[test.left.id], test.comparators[0].value
+            op = test.ops[0]
+            if isinstance(op, (ast.Eq, ast.Is)):
+                return a == b if isinstance(op, ast.Eq) else a is b
+            if isinstance(op, (ast.NotEq, ast.IsNot)):
+                return a != b if isinstance(op, ast.NotEq) else a is not b
+        if isinstance(test, ast.BoolOp):
+            vs = [CFG._eval_flag_test(v, flags) for v in test.values]
+            if isinstance(test.op, ast.And):
+                if any(v is False for v in vs):
+                    return False
+                if all(v is True for v in vs):
+                    return True
+            else:
+                if any(v is True for v in vs):
+                    return True
+                if all(v is False for v in vs):
+                    return False
+        return None
+
+    def explore_tagged(self, tag_edge: Callable[[int, int, str, object], object], init_tag=None, limit: int = 200000):
+        """Forward exploration from entry over states (node, known constant flags, tag).  `tag_edge(a, b, label, tag)`
+        returns the tag after traversing edge a->b.  Branches decided by known constant flags are pruned.
+        Returns the set of (node, tag) pairs reachable on flag-feasible paths."""
+        flagnames = self.constant_flags()
+        start = (self.entry, (), init_tag)
+        seen = {start}
+        todo = [start]
+        out = set()
+        while todo:
+            n, fl, tag = todo.pop()
+            limit -= 1
+            if limit < 0:
+                raise AnalysisError("explore_tagged: state budget exceeded")
+            out.add((n, tag))
+            node = self.nodes[n]
+            flags = dict(fl)
+            if node.kind == "stmt" and isinstance(node.stmt, ast.Assign):
+                for t in node.stmt.targets:
+                    if isinstance(t, ast.Name) and t.id in flagnames and isinstance(node.stmt.value, ast.Constant):
+                        flags[t.id] = node.stmt.value.value
+            decided = None
+            if node.kind in ("if", "while") and node.expr is not None:
+                decided = self._eval_flag_test(node.expr, flags)
+            for b, lab in self.succ[n]:
+                if decided is not None and lab in ("true", "false") and (lab == "true") != decided:
+                    continue
+                st = (b, tuple(sorted(flags.items(), key=lambda kv: kv[0])), tag_edge(n, b, lab, tag))
+                if st not in seen:
+                    seen.add(st)
+                    todo.append(st)
+        return out
+
     def on_cycle(self, n: int) -> bool:
         return n in self.reachable(n)
 
